@@ -107,14 +107,19 @@ func main() {
 		// (A) small networks: every order of releasing the parked replies, for a rotating choice of
 		// options and for Close / StopTraversing / pause at every quiescent point
 		for g := 0; g < *exh && seg < *maxRuns; g++ {
-			lim := seg + *maxExh
-			if lim > *maxRuns {
-				lim = *maxRuns
+			// budget of this network: 35% orders, 15% held datagram, 35% stops, the rest pauses
+			start := seg
+			upTo := func(pct int) bool {
+				l := start + *maxExh*pct/100
+				if l > *maxRuns {
+					l = *maxRuns
+				}
+				return seg < l
 			}
 			base := scenario{NetSeed: rng.Int63(), Shape: "small", Opt: rng.Intn(nOpts), StopAt: -1, PauseAt: -1, ResumeAt: -1, Gate: -1}
 			// all orders, nothing else
 			steps := 0
-			for ch := []int{}; ch != nil && seg < lim-(*maxExh)/2; {
+			for ch := []int{}; ch != nil && upTo(35); {
 				sc := base
 				sc.Choices = ch
 				r := play(sc)
@@ -125,8 +130,8 @@ func main() {
 			}
 			// one get_peers datagram held inside WriteTo while StopTraversing / Close is called: nothing may be
 			// announced before the held query has returned (the traversal cannot have stopped)
-			for gate := 0; gate < 4; gate++ {
-				for at := 1; at <= steps+1 && seg < lim-(*maxExh)/3; at++ {
+			for at := 1; at <= steps+1; at++ {
+				for gate := 0; gate < 4 && upTo(50); gate++ {
 					sc := base
 					sc.Opt = []int{0, 2, 6, 8, 1}[(gate+at)%5]
 					sc.Gate, sc.StopKind, sc.StopAt = gate, 2, at
@@ -136,13 +141,21 @@ func main() {
 					play(sc)
 				}
 			}
-			// every stop kind at every point, every order
-			for kind := 1; kind <= 3; kind++ {
-				for at := 0; at <= steps+3; at++ {
-					for ch := []int{}; ch != nil && seg < lim-(*maxExh)/6; {
+			// every stop kind at every point; every order (a few per point when the budget is small)
+			perCell := 1 << 30
+			if *maxExh < 1000 {
+				perCell = 2
+			}
+			for at := 0; at <= steps+3; at++ {
+				for kind := 1; kind <= 3; kind++ {
+					n := 0
+					for ch := []int{}; ch != nil && n < perCell && upTo(85); n++ {
 						sc := base
 						sc.Opt = (base.Opt + kind + at) % nOpts
 						sc.StopKind, sc.StopAt, sc.Choices = kind, at, ch
+						if at == steps+3 {
+							sc.StopAt = 1000 // after the end
+						}
 						r := play(sc)
 						ch = nextChoices(r.taken, r.arities)
 					}
@@ -152,7 +165,7 @@ func main() {
 			for pa := 0; pa <= steps; pa++ {
 				for kind := 0; kind <= 2; kind++ {
 					for _, gate := range []int{-1, rng.Intn(3)} {
-						if seg >= lim {
+						if !upTo(100) {
 							break
 						}
 						sc := base
